@@ -646,7 +646,12 @@ func (r *run) exec(c, i int, op *Op) {
 		inv["line"] = op.Line
 		ret["line"] = op.Line
 		r.rec(inv)
-		n, err := r.p.Write([]byte(op.Line + "\n"))
+		buf := []byte(op.Line + "\n")
+		n, err := r.p.Write(buf)
+		// io.Writer: the callee must not retain the slice; the caller reuses it at once
+		for i := range buf {
+			buf[i] = '#'
+		}
 		ret["wn"] = n
 		ret["full"] = n == len(op.Line)+1
 		ret["err"] = errName(err)
